@@ -440,4 +440,7 @@ func checkC13(c *runCtx) {
 	csExplore(c, "refcount-udp-addrport", b-1, dl, nil)
 	csExplore(c, "refcount-tcp", b, dl, nil)
 	csExplore(c, "refcount-udp-inbound", b, dl, nil)
+	// reference counting against re-acquisition: the last handle is closed while GetConn asks for the same ufrag again
+	csExplore(c, "mux-close-vs-getconn", b+1, dl, nil)
+	csExplore(c, "tcpmux-close-vs-getconn", b+1, dl, nil)
 }
